@@ -1,12 +1,15 @@
 """C01 -- canonical output is well-formed ASCII in every component."""
 from common import Family
 import kernel as K
+import urlfam as UF
 
 PROPERTY = "C01"
 LEVEL = "model_checking"
 BUDGET = {"quick": 240, "thorough": 2400}
-BOUNDS = {"quick": "kernel: all texts of <= 3 code points (all of Unicode incl. surrogates) x 9 quoters x 2 backends",
-          "thorough": "kernel: all texts of <= 4 code points x 9 quoters x 2 backends"}
+BOUNDS = {"quick": "kernel: all texts of <= 3 code points (all of Unicode incl. surrogates) x 9 quoters x 2 backends; URL level: 26 entry points "
+                   "(constructor per component, build per argument, every with_*, query operations, /, joinpath, join) with text of <= 2 free "
+                   "code points or an escape with symbolic hex digits (+1 free)",
+          "thorough": "kernel: all texts of <= 4 code points x 9 quoters x 2 backends; URL level: <= 3 free code points, both backends throughout"}
 ASSUMPTIONS = ["texts longer than the bound are outside the claim",
                "functools.lru_cache is bypassed (treated as a transparent memo)"]
 MANIFEST_ENTRY = {
@@ -25,4 +28,5 @@ def families(tier):
     for name in K.QUOTERS:
         for k in range(1, n + 1):
             fams.append(Family("kernel/%s/n=%d" % (name, k), K.h_wellformed, dict(name=name, n=k), backends=("py", "c")))
+    fams += UF.families(UF.h_c01, tier)
     return fams
